@@ -1,5 +1,6 @@
 mod chain;
 mod gen;
+mod matrix;
 mod obs;
 mod ops;
 mod oracle;
@@ -394,7 +395,7 @@ fn main() {
         Some("gen") => cmd_gen(&args[2..]),
         Some("shrink") => cmd_shrink(&args[2..]),
         Some("pure") => pure::cmd_pure(&args[2..]),
-        Some("matrix") => pure::cmd_matrix(&args[2..]),
+        Some("matrix") => matrix::cmd_matrix(&args[2..]),
         _ => {
             eprintln!("usage: krp-harness replay|gen|shrink|pure|matrix ...");
             std::process::exit(2);
